@@ -77,7 +77,8 @@ prop("C07", opts={"memprop": "C07"},
      nontrivial=[["timer_armed"], ["reauth_same_user"], ["reauth_other_user"], ["sigterm_mid_plan"], ["sigterm_inside_batch"], ["drop:length prefix above the maximum"], ["ws_upgraded"]],
      required_probes=["timer_armed", "timed_out", "owner_left_with_inflight", "sigterm_mid_plan", "sigterm_inside_batch", "sigterm_with_clients", "idle_baseline_checked", "exit_checked", "routing_table_full", "authenticated"])
 
-prop("C08", opts={"memprop": "C08", "shadowprop": "C08", "afprop": "C08"},
+prop("C08", opts={"memprop": "C08", "shadowprop": "C08", "afprop": "C08"}, also=["C03/unexpected-routed-request"],   # with credentials loaded, a set/call that reaches an owner although the reference model refuses it was routed without authorisation
+
      mix=[("c08", "default", 3), ("c08", "localonly", 1.5), ("c08", "small", 1), ("c08+af", "default", 1)],
      quick_mix=[("c08", "default", 2), ("c08", "localonly", 1), ("c08+af", "default", 0.7)],
      quick_s=30, thorough_s=600,
